@@ -173,6 +173,7 @@ package compile
 //@   keeps map[string]bool
 //@   keeps map[parse.Node]bool
 //@   preserves c.typedefChain
+//@   ensures ghost("refChecks") == old(ghost("refChecks")) + 1
 //@ func (*featuresMap).set
 //@   requires f.features != nil
 //@   modifies mapof(f.features)
@@ -253,6 +254,7 @@ package compile
 //@   modifies *
 //@   callsite @BuildType c.typedefChain[t18]
 //@   callsite @BuildType !old(c.typedefChain[t18])
+//@   callsite @BuildType ghost("refChecks") == old(ghost("refChecks")) + 1
 //@ func (*Compiler).makeBuiltinType
 //@   assumed
 //@   modifies *
